@@ -538,3 +538,199 @@ Proof.
     destruct Sa as [[-> Ta]|[Ha _]]; [|congruence]. destruct Sb as [[-> Tb]|[Hb _]]; [|congruence].
     apply concat_w_enc; assumption.
 Qed.
+
+(* ================================================================ JSONPath functions *)
+(* The selector on an encoding works on the decoded document `normalise v` (SelWalkProofs), the text branch on the parsed
+   tree v itself.  JSONPath evaluation commutes with normalise: selection is by position and key, filters compare
+   numbers by value (num_cmp), and the selected items are written with enc, which does not see the difference. *)
+Notation nv := normalise.
+Definition pnorm (p : pvalue) : pvalue := match p with PVNum n => PVNum (normalise_num n) | _ => p end.
+
+Lemma is_container_nv v : is_container (nv v) = is_container v.
+Proof. destruct v; reflexivity. Qed.
+Lemma assoc_lookup_nmem k o : assoc_lookup k (map nmem o) = option_map nv (assoc_lookup k o).
+Proof.
+  induction o as [|[k' x] o IH]; [reflexivity|]. cbn [map nmem fst snd assoc_lookup].
+  destruct (bytes_eqb k k'); [reflexivity|exact IH].
+Qed.
+Lemma nth_opt_map {A B} (f : A -> B) l : forall k, nth_opt (map f l) k = option_map f (nth_opt l k).
+Proof. induction l as [|x l IH]; intros [|k]; cbn [map nth_opt option_map]; try reflexivity. apply IH. Qed.
+Lemma select_indices_nv l ixs : select_indices (map nv l) ixs = map nv (select_indices l ixs).
+Proof.
+  unfold select_indices. destruct l as [|x l]; [reflexivity|]. cbn [map].
+  change (nv x :: map nv l) with (map nv (x :: l)). set (L := x :: l).
+  replace (lenZ (map nv L)) with (lenZ L) by (unfold lenZ; rewrite map_length; reflexivity).
+  induction (flat_map (index_positions (lenZ L)) ixs) as [|k ks IH]; [reflexivity|].
+  cbn [flat_map]. rewrite map_app, IH, nth_opt_map. destruct (nth_opt L k); reflexivity.
+Qed.
+Lemma select_step_nv p v : select_step p (nv v) = res_map (map nv) (select_step p v).
+Proof.
+  unfold select_step. rewrite is_container_nv. destruct (is_container v) eqn:C.
+  - destruct p; try reflexivity; destruct v; try discriminate C; cbn [nv res_map map]; try reflexivity.
+    + rewrite !map_map. reflexivity.
+    + change (fun kv : list N * value => (fst kv, nv (snd kv))) with nmem. rewrite assoc_lookup_nmem.
+      destruct (assoc_lookup s l); reflexivity.
+    + change (fun kv : list N * value => (fst kv, nv (snd kv))) with nmem. rewrite assoc_lookup_nmem.
+      destruct (assoc_lookup s l); reflexivity.
+    + change (fun kv : list N * value => (fst kv, nv (snd kv))) with nmem. rewrite assoc_lookup_nmem.
+      destruct (assoc_lookup s l); reflexivity.
+    + rewrite select_indices_nv. reflexivity.
+  - destruct p; reflexivity.
+Qed.
+
+Lemma flat_map_res_nv (f f' : value -> res (list value)) : (forall x, f' (nv x) = res_map (map nv) (f x)) ->
+  forall l, flat_map_res f' (map nv l) = res_map (map nv) (flat_map_res f l).
+Proof.
+  intros H. induction l as [|x l IH]; [reflexivity|]. cbn [map flat_map_res]. rewrite H, IH.
+  destruct (f x) as [a| |]; cbn [res_map bind]; try reflexivity.
+  destruct (flat_map_res f l) as [b| |]; cbn [res_map bind]; try reflexivity. rewrite map_app. reflexivity.
+Qed.
+Lemma filter_res_nv (g g' : value -> res bool) : (forall x, g' (nv x) = g x) ->
+  forall l, filter_res g' (map nv l) = res_map (map nv) (filter_res g l).
+Proof.
+  intros H. induction l as [|x l IH]; [reflexivity|]. cbn [map filter_res]. rewrite H, IH.
+  destruct (g x) as [k| |]; cbn [res_map bind]; try reflexivity.
+  destruct (filter_res g l) as [b| |]; cbn [res_map bind]; try reflexivity. destruct k; reflexivity.
+Qed.
+Lemma res_map_bind_nv {B} (r : res (list value)) (k k' : list value -> res B) : (forall fr, k' (map nv fr) = k fr) ->
+  (do fr <- res_map (map nv) r; k' fr) = (do fr <- r; k fr).
+Proof. intros H. destruct r; cbn [res_map bind]; [apply H|reflexivity|reflexivity]. Qed.
+
+Lemma walk_nv (fe fe' : value -> expr -> res bool) : (forall pos e, fe' (nv pos) e = fe pos e) ->
+  forall ps fr, walk fe' ps (map nv fr) = res_map (map nv) (walk fe ps fr).
+Proof.
+  intros H. induction ps as [|p ps IH]; intros fr; [reflexivity|].
+  assert (Step : forall q, (do fr' <- flat_map_res (select_step q) (map nv fr); walk fe' ps fr')
+                           = res_map (map nv) (do fr' <- flat_map_res (select_step q) fr; walk fe ps fr')).
+  { intros q. rewrite (flat_map_res_nv (select_step q) (select_step q) (select_step_nv q)).
+    destruct (flat_map_res (select_step q) fr); cbn [res_map bind]; [apply IH|reflexivity|reflexivity]. }
+  assert (Filt : forall e, (do fr' <- filter_res (fun pos => fe' pos e) (map nv fr); walk fe' ps fr')
+                           = res_map (map nv) (do fr' <- filter_res (fun pos => fe pos e) fr; walk fe ps fr')).
+  { intros e. rewrite (filter_res_nv (fun pos => fe pos e) (fun pos => fe' pos e) (fun x => H x e)).
+    destruct (filter_res (fun pos => fe pos e) fr); cbn [res_map bind]; [apply IH|reflexivity|reflexivity]. }
+  destruct p; cbn [walk]; try apply Step; try apply Filt; apply IH.
+Qed.
+Lemma walk_operand_nv : forall ps fr, walk_operand ps (map nv fr) = res_map (map nv) (walk_operand ps fr).
+Proof.
+  induction ps as [|p ps IH]; intros fr; [reflexivity|].
+  assert (Step : forall q, (do fr' <- flat_map_res (select_step q) (map nv fr); walk_operand ps fr')
+                           = res_map (map nv) (do fr' <- flat_map_res (select_step q) fr; walk_operand ps fr')).
+  { intros q. rewrite (flat_map_res_nv (select_step q) (select_step q) (select_step_nv q)).
+    destruct (flat_map_res (select_step q) fr); cbn [res_map bind]; [apply IH|reflexivity|reflexivity]. }
+  destruct p; cbn [walk_operand]; try apply Step; reflexivity.
+Qed.
+
+Lemma pnorm_idem p : pnorm (pnorm p) = pnorm p.
+Proof. destruct p; cbn [pnorm]; try reflexivity. rewrite normalise_num_idem. reflexivity. Qed.
+Lemma scalar_pvalue_nv x : scalar_pvalue (nv x) = option_map pnorm (scalar_pvalue x).
+Proof. destruct x; reflexivity. Qed.
+Lemma scalars_nv fr :
+  flat_map (fun x => match scalar_pvalue x with Some v => [v] | None => [] end) (map nv fr)
+  = map pnorm (flat_map (fun x => match scalar_pvalue x with Some v => [v] | None => [] end) fr).
+Proof.
+  induction fr as [|x fr IH]; [reflexivity|]. cbn [map flat_map]. rewrite map_app, IH, scalar_pvalue_nv.
+  destruct (scalar_pvalue x); reflexivity.
+Qed.
+(* the operands of a comparison: the same scalars up to pnorm *)
+Lemma expr_values_nv root pos e :
+  res_map (map pnorm) (expr_values (nv root) (nv pos) e) = res_map (map pnorm) (expr_values root pos e).
+Proof.
+  destruct e; try reflexivity. cbn [expr_values].
+  assert (St : (match l with PCurrent :: _ => nv pos | _ => nv root end) = nv (match l with PCurrent :: _ => pos | _ => root end))
+    by (destruct l as [|[] ?]; reflexivity).
+  rewrite St. change [nv (match l with PCurrent :: _ => pos | _ => root end)] with (map nv [match l with PCurrent :: _ => pos | _ => root end]).
+  rewrite walk_operand_nv. destruct (walk_operand (tl l) _) as [fr| |]; cbn [res_map bind]; try reflexivity.
+  rewrite scalars_nv, map_map. f_equal. apply map_ext. intros p. apply pnorm_idem.
+Qed.
+
+Lemma pv_cmp_pnorm a b : pv_cmp (pnorm a) (pnorm b) = pv_cmp a b.
+Proof. destruct a, b; cbn [pnorm pv_cmp pv_rank]; try reflexivity. apply num_cmp_normalise. Qed.
+Lemma compare_value_pnorm op a b : compare_value op (pnorm a) (pnorm b) = compare_value op a b.
+Proof. unfold compare_value. rewrite pv_cmp_pnorm. reflexivity. Qed.
+Lemma exists_inner_pnorm op x : forall b, exists_res (fun y => compare_value op (pnorm x) y) (map pnorm b) = exists_res (fun y => compare_value op x y) b.
+Proof.
+  induction b as [|y b IH]; [reflexivity|]. cbn [map exists_res]. rewrite compare_value_pnorm, IH. reflexivity.
+Qed.
+Lemma exists_outer_pnorm op b : forall a,
+  exists_res (fun x => exists_res (fun y => compare_value op x y) (map pnorm b)) (map pnorm a)
+  = exists_res (fun x => exists_res (fun y => compare_value op x y) b) a.
+Proof.
+  induction a as [|x a IH]; [reflexivity|]. cbn [map exists_res]. rewrite exists_inner_pnorm, IH. reflexivity.
+Qed.
+Lemma compare_operands_nv op (r1 r1' r2 r2' : res (list pvalue)) :
+  res_map (map pnorm) r1' = res_map (map pnorm) r1 -> res_map (map pnorm) r2' = res_map (map pnorm) r2 ->
+  (do a <- r1'; do b <- r2'; exists_res (fun x => exists_res (fun y => compare_value op x y) b) a)
+  = (do a <- r1; do b <- r2; exists_res (fun x => exists_res (fun y => compare_value op x y) b) a).
+Proof.
+  intros H1 H2. destruct r1' as [a'|e1'|], r1 as [a|e1|]; cbn [res_map] in H1; try discriminate H1; cbn [bind]; try reflexivity.
+  - destruct r2' as [b'|e2'|], r2 as [b|e2|]; cbn [res_map] in H2; try discriminate H2; cbn [bind]; try reflexivity.
+    + inversion H1 as [Ha]. inversion H2 as [Hb].
+      rewrite <- (exists_outer_pnorm op b' a'), <- (exists_outer_pnorm op b a), Ha, Hb. reflexivity.
+    + inversion H2. reflexivity.
+  - inversion H1. reflexivity.
+Qed.
+
+Lemma nonempty_map {A B} (f : A -> B) l : match map f l with [] => false | _ => true end = match l with [] => false | _ => true end.
+Proof. destruct l; reflexivity. Qed.
+
+Theorem eval_nv : forall fuel,
+  (forall root cur ps, find_positions fuel (nv root) (option_map nv cur) ps = res_map (map nv) (find_positions fuel root cur ps)) /\
+  (forall root pos e, filter_expr fuel (nv root) (nv pos) e = filter_expr fuel root pos e).
+Proof.
+  induction fuel as [|f [IHp IHe]]; [split; reflexivity|]. split.
+  - intros root cur ps. cbn [find_positions].
+    assert (St : (match ps with PCurrent :: _ => match option_map nv cur with Some c => Ok c | None => Panic end | _ => Ok (nv root) end)
+                 = res_map nv (match ps with PCurrent :: _ => match cur with Some c => Ok c | None => Panic end | _ => Ok root end))
+      by (destruct ps as [|[] ?]; try reflexivity; destruct cur; reflexivity).
+    rewrite St. destruct (match ps with PCurrent :: _ => match cur with Some c => Ok c | None => Panic end | _ => Ok root end) as [s| |];
+      cbn [res_map bind]; try reflexivity.
+    change [nv s] with (map nv [s]). apply walk_nv. intros pos e. apply IHe.
+  - intros root pos e. cbn [filter_expr]. destruct e; try reflexivity.
+    + destruct op; try (rewrite !IHe; reflexivity);
+        apply compare_operands_nv; apply expr_values_nv.
+    + change (Some (nv pos)) with (option_map nv (Some pos)). rewrite (IHp root (Some pos) l). destruct (find_positions f root (Some pos) l) as [fr| |]; cbn [res_map bind]; try reflexivity.
+      rewrite nonempty_map. reflexivity.
+Qed.
+Lemma find_positions_nv root ps :
+  find_positions PATH_FUEL (nv root) None ps = res_map (map nv) (find_positions PATH_FUEL root None ps).
+Proof. exact (proj1 (eval_nv PATH_FUEL) root None ps). Qed.
+
+Lemma build_values_nv : forall items buf offs, build_values buf (map nv items) offs = build_values buf items offs.
+Proof. induction items as [|x r IH]; intros buf offs; [reflexivity|]. cbn [map build_values]. rewrite enc_normalise. apply IH. Qed.
+Lemma build_array_items_nv items buf : build_array_items buf (map nv items) = build_array_items buf items.
+Proof. unfold build_array_items. change (VArr (map nv items)) with (nv (VArr items)). rewrite enc_normalise. reflexivity. Qed.
+
+Theorem select_t_normalise v ps m buf : select_t (nv v) ps m buf = select_t v ps m buf.
+Proof.
+  unfold select_t. rewrite find_positions_nv. destruct (find_positions PATH_FUEL v None ps) as [items| |]; cbn [res_map bind]; try reflexivity.
+  rewrite nonempty_map. destruct (is_predicate ps); [reflexivity|]. f_equal.
+  destruct m; rewrite ?firstn_map, ?map_length, ?build_values_nv, ?build_array_items_nv; reflexivity.
+Qed.
+Theorem exists_t_normalise v ps : exists_t (nv v) ps = exists_t v ps.
+Proof.
+  unfold exists_t. destruct (is_predicate ps); [reflexivity|]. rewrite find_positions_nv.
+  destruct (find_positions PATH_FUEL v None ps) as [items| |]; cbn [res_map bind]; try reflexivity. rewrite nonempty_map. reflexivity.
+Qed.
+Theorem predicate_match_t_normalise v ps : predicate_match_t (nv v) ps = predicate_match_t v ps.
+Proof.
+  unfold predicate_match_t. destruct (negb (is_predicate ps)); [reflexivity|]. rewrite find_positions_nv.
+  destruct (find_positions PATH_FUEL v None ps) as [items| |]; cbn [res_map bind]; try reflexivity. rewrite nonempty_map. reflexivity.
+Qed.
+
+(* get_by_path / get_by_path_first / get_by_path_array (md = MMixed / MFirst / MArray): byte-identical data and offsets *)
+Theorem get_by_path_gen_forms md t v ps buf : wfb v = true -> stands_for t v ->
+  get_by_path_gen_w md t ps buf = select_t v ps md buf.
+Proof.
+  intros W [[-> T]|[Ht Hp]]; [rewrite (get_by_path_gen_w_enc md v ps buf W T); apply select_t_normalise|].
+  unfold get_by_path_gen_w. rewrite Ht, Hp. reflexivity.
+Qed.
+Theorem path_exists_forms t v ps : wfb v = true -> stands_for t v -> path_exists_w t ps = exists_t v ps.
+Proof.
+  intros W [[-> T]|[Ht Hp]]; [rewrite (path_exists_w_enc v ps W T); apply exists_t_normalise|].
+  unfold path_exists_w. rewrite Ht, Hp. reflexivity.
+Qed.
+Theorem path_match_forms t v ps : wfb v = true -> stands_for t v -> path_match_w t ps = predicate_match_t v ps.
+Proof.
+  intros W [[-> T]|[Ht Hp]]; [rewrite (path_match_w_enc v ps W T); apply predicate_match_t_normalise|].
+  unfold path_match_w. rewrite Ht, Hp. reflexivity.
+Qed.
